@@ -4,13 +4,18 @@ import "testing"
 
 func TestProbe(t *testing.T) {
 	for _, src := range []string{
-		`access(all) fun main() { log(Address.fromBytes([0,0,0,0,0,0,0,0,1]))}`,
-		`access(all) fun main() { log(Address.fromString("0x00000000000000001"))}`,
-		`access(all) fun main() { log(Address.fromString("0x0000000000000001")); log(Address.fromString("0X1")); log(Address.fromString("0xG")); log(Address.fromString("0x")); log(Address.fromString("")); log(Address.fromBytes([]))}`,
+		`access(all) fun main() { let v: Int8 = -0; log(v) }`,
+		`access(all) fun main() { let v: Int8 = -1; log(v) }`,
+		`access(all) fun main() { let v: Int = -0; log(v) }`,
+		`access(all) fun main() { let v: Int8 = -00; log(v) }`,
+		`access(all) fun main() { let v: Fix64 = -0.0; log(v) }`,
+		`access(all) fun main() { let v = -0; log(v) }`,
+		`access(all) fun main() { let v: Int8 = - 0; log(v) }`,
+		`access(all) fun main() { let v: Int8 = -(0); log(v) }`,
 	} {
 		for _, vm := range []bool{false} {
 			r := runScript(src, vm)
-			t.Log(vm, r.Logs, r.Class, r.Kind, r.ErrString())
+			t.Log(src, r.Logs, r.Class, r.Kind, shortErr(r), r.ErrString())
 		}
 	}
 }
